@@ -57,7 +57,8 @@ pub struct Case {
     pub late: Vec<(Api, u64)>,
     pub after: Api,
     /// `server.lock.host`: 0 = default, 1 = "localhost", 2 = "127.0.0.1"; 3, 4 = an address
-    /// that cannot be bound on this machine (nobody can ever hold that lock: only phase A runs)
+    /// that cannot be bound on this machine, 5 = a port number beyond 65535 (nobody can ever hold
+    /// that lock: only phase A runs)
     #[serde(default)]
     pub lock_host: u8,
 }
@@ -80,7 +81,7 @@ pub fn strategy() -> impl Strategy<Value = Case> {
         vec((api(), 0u64..60), 1..=7),
         vec((api(), 110u64..400), 0..=2),
         api(),
-        prop_oneof![4 => Just(0u8), 2 => Just(1u8), 2 => Just(2u8), 1 => Just(3u8), 1 => Just(4u8)],
+        prop_oneof![8 => Just(0u8), 4 => Just(1u8), 4 => Just(2u8), 2 => Just(3u8), 2 => Just(4u8), 1 => Just(5u8)],
     )
         .prop_map(|(race, holder, termination, contenders, late, after, lock_host)| Case {
             race,
@@ -199,7 +200,44 @@ fn install_git_wrapper(env: &mut Env) {
 
 /// (i): the conservative intervals [lock.acquired, lock.release] of different
 /// processes never overlap. `kill_ns` closes the interval of a killed holder.
-fn check_exclusion(points: &[PointLine], killed: Option<(u32, u128)>) -> Result<usize, CheckError> {
+/// Scheduling latency of this machine right now, measured by a thread of the harness that sleeps
+/// 2 ms at a time and records by how much it overslept at worst. Oracle (iv) needs a bound on
+/// the time a process can lose the CPU between two adjacent statements.
+pub struct JitterProbe {
+    stop: std::sync::Arc<std::sync::atomic::AtomicBool>,
+    max_ns: std::sync::Arc<std::sync::atomic::AtomicU64>,
+    handle: Option<std::thread::JoinHandle<()>>,
+}
+impl JitterProbe {
+    pub fn start() -> Self {
+        use std::sync::atomic::Ordering;
+        let stop = std::sync::Arc::new(std::sync::atomic::AtomicBool::new(false));
+        let max_ns = std::sync::Arc::new(std::sync::atomic::AtomicU64::new(0));
+        let (s2, m2) = (stop.clone(), max_ns.clone());
+        let handle = std::thread::spawn(move || {
+            while !s2.load(Ordering::SeqCst) {
+                let t = Instant::now();
+                std::thread::sleep(Duration::from_millis(2));
+                let over = t.elapsed().saturating_sub(Duration::from_millis(2)).as_nanos() as u64;
+                m2.fetch_max(over, Ordering::SeqCst);
+            }
+        });
+        JitterProbe { stop, max_ns, handle: Some(handle) }
+    }
+    pub fn max_ns(&self) -> u128 {
+        self.max_ns.load(std::sync::atomic::Ordering::SeqCst) as u128
+    }
+}
+impl Drop for JitterProbe {
+    fn drop(&mut self) {
+        self.stop.store(true, std::sync::atomic::Ordering::SeqCst);
+        if let Some(h) = self.handle.take() {
+            let _ = h.join();
+        }
+    }
+}
+
+fn check_exclusion(points: &[PointLine], killed: Option<(u32, u128)>, jitter_ns: u128) -> Result<usize, CheckError> {
     let mut iv: Vec<(u32, u128, u128)> = vec![];
     let mut open: BTreeMap<u32, u128> = BTreeMap::new();
     for p in points {
@@ -222,12 +260,13 @@ fn check_exclusion(points: &[PointLine], killed: Option<(u32, u128)>) -> Result<
     iv.sort_by_key(|x| x.1);
     // (iv) whoever tried to acquire while another process demonstrably held the lock (the
     // attempt is logged before the bind, the holder's acquisition after its bind, its release
-    // before the guard drops; 100 ms margin for the time between the attempt line and the
-    // bind system call) must never acquire
-    const MARGIN_NS: u128 = 100_000_000;
+    // before the guard drops; a margin for the time between the attempt line and the bind system
+    // call: 100 ms plus ten times the worst scheduling delay the harness itself saw during this
+    // case) must never acquire
+    let margin_ns: u128 = 100_000_000 + 10 * jitter_ns;
     for p in points.iter().filter(|p| p.name == "lock.attempt") {
         for h in iv.iter().filter(|h| h.0 != p.pid) {
-            if h.1 < p.ns && p.ns + MARGIN_NS < h.2 {
+            if h.1 < p.ns && p.ns + margin_ns < h.2 {
                 if let Some(acq) = points.iter().find(|q| q.pid == p.pid && q.name == "lock.acquired") {
                     return viol_obs(
                         "c14.acquired.after.busy.attempt",
@@ -261,7 +300,24 @@ fn check_exclusion(points: &[PointLine], killed: Option<(u32, u128)>) -> Result<
     Ok(iv.len())
 }
 
+/// Oracle (iv) rests on a time margin (the attempt line is written before the bind system
+/// call; on a machine that is oversubscribed several times over, a process can lose the CPU
+/// between the two for longer than a fixed margin). The margin therefore grows with the
+/// scheduling delay measured during the case, and a violation of (iv) alone is only reported
+/// when the same case shows it twice in a row; the other oracles need no margin.
 pub fn check(case: &Case, w: usize) -> CheckResult {
+    match check_once(case, w) {
+        Err(CheckError::Violation(v)) if v.signature == "c14.acquired.after.busy.attempt" => match check_once(case, w) {
+            Err(CheckError::Violation(v2)) if v2.signature == v.signature => Err(CheckError::Violation(v2)),
+            Err(e) => Err(e),
+            Ok(info) => Ok(info.class("busy-attempt-seen-once-not-confirmed")),
+        },
+        r => r,
+    }
+}
+
+fn check_once(case: &Case, w: usize) -> CheckResult {
+    let jitter = JitterProbe::start();
     let cfg = ConfigSpec {
         targets: vec![TargetSpec::new("t0"), TargetSpec::new("t1")],
         lock_host: match case.lock_host {
@@ -271,6 +327,8 @@ pub fn check(case: &Case, w: usize) -> CheckResult {
             4 => Some("198.51.100.9".into()),
             _ => None,
         },
+        // 5: a port number beyond 65535
+        lock_port_plus: if case.lock_host == 5 { Some(65536) } else { None },
         ..Default::default()
     };
     let mut env = Env::new(w);
@@ -292,7 +350,7 @@ pub fn check(case: &Case, w: usize) -> CheckResult {
     // ---- phase A: free race
     let procs = spawn_all(&mut env, &case.race, &log, "race");
     let points = read_points(&log);
-    let holders_a = check_exclusion(&points, None)?;
+    let holders_a = check_exclusion(&points, None, jitter.max_ns())?;
     for p in &procs {
         let acquired = points.iter().any(|l| l.pid == p.pid && l.name == "lock.acquired");
         if !acquired {
@@ -508,7 +566,7 @@ pub fn check(case: &Case, w: usize) -> CheckResult {
         );
     }
     let points = read_points(&log);
-    let holders_b = check_exclusion(&points, killed)?;
+    let holders_b = check_exclusion(&points, killed, jitter.max_ns())?;
     Ok(CaseInfo::new(overlapped >= 1)
         .class(&format!("holder={:?}", case.holder).replace("Delayed(", "delayed-").replace(')', ""))
         .class(&format!("termination={:?}", case.termination))
@@ -664,7 +722,7 @@ pub fn check_listen_delay(case: &ListenDelayCase, w: usize) -> CheckResult {
     // the delayed invocation was inside its acquisition while the other one went through it:
     // one lock, so at most one of them may have got it
     let points = read_points(&log);
-    let holders = check_exclusion(&points, None)?;
+    let holders = check_exclusion(&points, None, 0)?;
     let acted_a = helper_starts(&trace_a) > 0;
     let acted_b = helper_starts(&trace_b) > 0;
     let both_ok = oa.code == Some(0) && ob.code == Some(0);
@@ -702,8 +760,8 @@ pub fn run(ctx: &mut Ctx) {
 phase B: a holder kept inside its critical section (a `run` whose helper blocks on a gate, or any of the APIs delayed at the `lock.held` point right after it obtained its lock guard), 1-7 contenders started while it is inside, \
 0-2 late contenders started 110-400 ms before the holder ends, holder termination by normal exit, failing run or SIGKILL, then one more invocation. oracle: (i) from the point log, [lock.acquired, lock.release] intervals of different processes never overlap (a killed \
 holder's interval ends at a time stamp taken before the kill); (ii) a process that never acquired, and every contender that ran while the holder was provably inside, ends non-zero with a lock error, \
-starts no executable (own trace directory: command executables and, through a wrapper on PATH, git), and the out directory is byte-identical before/after the contenders; (iii) after the holder ended the next invocation does not get a lock error; (iv) a process whose bind attempt (lock.attempt) fell inside another process's holding interval, with 100 ms to spare before the release, never acquires. \
-a seventh of the cases use a lock address that cannot be bound at all (192.0.2.1, 198.51.100.9): only phase A runs, every invocation must end with a lock error, start nothing and write nothing. phase C: the four APIs started, in a generated order, by a command executable of the lock-holding run itself (same environment): each must be refused with a lock error, start nothing and leave the checkpoint alone. non-trivial = at least one contender overlapped the holder; distinct by SHA-256"
+starts no executable (own trace directory: command executables and, through a wrapper on PATH, git), and the out directory is byte-identical before/after the contenders; (iii) after the holder ended the next invocation does not get a lock error; (iv) a process whose bind attempt (lock.attempt) fell inside another process's holding interval, with 100 ms plus ten times the scheduling delay measured by the harness during the case to spare before the release, never acquires (reported when the case shows it twice in a row). \
+a seventh of the cases use a lock address that cannot be bound at all (192.0.2.1, 198.51.100.9, or a port number beyond 65535): only phase A runs, every invocation must end with a lock error, start nothing and write nothing. phase C: the four APIs started, in a generated order, by a command executable of the lock-holding run itself (same environment): each must be refused with a lock error, start nothing and leave the checkpoint alone. non-trivial = at least one contender overlapped the holder; distinct by SHA-256"
         .to_string();
     ctx.assumptions = vec![
         "lock.release is logged before the guard is dropped, so a correct lock cannot produce an overlap".into(),
